@@ -25,5 +25,7 @@ Lemma link_structure :
   /\ Gen.Kernel.scale_is_inverse_of_gamma_draw = true /\ Gen.Kernel.delta_uses_inverse_scale_of_assigned_mode = true
   /\ Gen.Kernel.accept_mask_is_uniform_strictly_below_alpha = true /\ Gen.Kernel.alpha_is_min_one_exp_nan_to_zero = true
   /\ Gen.Kernel.out_of_cube_proposals_are_rejected = true
-  /\ Gen.Kernel.inverse_and_cholesky_are_of_the_mode_scale_matrix = true.
+  /\ Gen.Kernel.inverse_and_cholesky_are_of_the_mode_scale_matrix = true
+  /\ Gen.Kernel.tpcn_rejects_on_every_coordinate = true
+  /\ Gen.Kernel.rwm_wraps_and_folds_designated_coordinates = true.
 Proof. repeat split. Qed.
